@@ -59,11 +59,22 @@ def _check(ctx, case, continuum):
         continuum = cases.build_continuum(cspec)
     try:
         soft, solvers = ac.call_alignment(continuum, dissim, case["backend"], "soft", spy)
-        best, _ = ac.call_alignment(continuum, dissim, case["backend"], "best", spy)
+    except Exception as e:
+        if case["backend"] == "allfail":
+            ctx.observe("no_solver_usable", "refused:" + type(e).__name__)     # without any solver a refusal is the right answer
+            return
+        ctx.count("M-COVER")
+        ctx.fail_exc(f"raises:{type(e).__name__}", e, monitor="M-COVER")
+        return
+    try:
+        # (the partition it is compared with is computed under the normal configuration when no solver is usable)
+        best, _ = ac.call_alignment(continuum, dissim, "cbc" if case["backend"] == "allfail" else case["backend"], "best", spy)
     except Exception as e:
         ctx.count("M-COVER")
         ctx.fail_exc(f"raises:{type(e).__name__}", e, monitor="M-COVER")
         return
+    if case["backend"] == "allfail":
+        ctx.observe("no_solver_usable", "an alignment was returned (judged like any other)")
     ctx.observe("solver", ",".join(solvers))
     ctx.count("M-COVER")
     pr = monitors.check_partition(continuum, soft, cover=True)
@@ -140,6 +151,8 @@ def run(ctx):
         if ctx.out_of_time():
             break
         case = ac.gen_oracle_case(ctx, dspecs)
+        if ctx.rng.random() < 0.05:
+            case["backend"] = "allfail"      # every solver call raises SolverError: a refusal is fine, a wrong cover is not
         if ctx.rng.random() < 0.1 and cases.spec_num_units(case["continuum"]) <= 12:
             labels = cases.dissim_labels(case["dissim"]) or cases.LABELS_SMALL
             case["session"] = ac.gen_edit_ops(ctx.rng, case["continuum"], labels, ctx.rng.randint(2, 4))
